@@ -1,4 +1,4 @@
-CONSTANTS N = 4  Byz = {4}  MaxView = 1  MaxBlocksPerView = 2  Ruleset = "chained"  Weak = "revote"  Prefix = 0  EquivViews = {1}  DumpEvery = 0
+CONSTANTS N = 4  Byz = {4}  MaxView = 1  MaxBlocksPerView = 2  Ruleset = "chained"  Weak = "revote"  Prefix = 0  EquivViews = {1}  DumpEvery = 0  GroupVotes = FALSE
 SPECIFICATION SpecOrdered
 INVARIANT OneVotePerView
 VIEW view
